@@ -62,11 +62,19 @@ class Rig:
         self.obs = self.onet.add_node(canopen.RemoteNode(K, od_factory()))
         self.wire_violations = []
         self.nmt_frames = 0
+        # a device on the bus that restarts at once: it answers every reset command for node K (or for all nodes) with its
+        # boot-up message - inline, i.e. the boot-up is processed before the commanding master's send() has returned
+        self.autoboot = False
+        self.rebooter = self.bus.actor_station("rebooter", self)
         self.bus.taps.append(self._tap)
         # views: name -> (nmt object, model state code)
         self.views = {"master": self.m_k.nmt, "slave": self.local.nmt, "observer": self.obs.nmt, "broadcast": self.mnet.nmt,
                       "master_other": self.m_j.nmt}
         self.model = {v: 0 for v in self.views}
+
+    def on_frame(self, frame, station):
+        if self.autoboot and frame.can_id == 0 and len(frame.data) == 2 and frame.data[0] in (129, 130) and frame.data[1] in (K, 0):
+            station.send(0x700 + K, b"\x00")
 
     def _tap(self, f):
         if f.can_id == 0 and f.src in ("master", "slave", "observer"):
@@ -89,6 +97,8 @@ class Rig:
         for view, station in (("master", "master"), ("master_other", "master"), ("slave", "slave"), ("observer", "observer")):
             if station != src_station:
                 self.hear_command(view, cs, target)
+        if self.autoboot and cs in (129, 130) and target in (K, 0):
+            self.hear_heartbeat("rebooter", K, 0)       # ... and then everybody hears the restarted device's boot-up
 
     def hear_heartbeat(self, src_station, node, byte):
         code = byte & 0x7F
@@ -185,6 +195,9 @@ def run_random(ctx, desc):
         if hb_running:
             rig.local.sdo[0x1017].raw = 100          # the slave produces heartbeats; one period elapses on every "tick"
             ops.append(("slave-heartbeat-time", 100))
+        rig.autoboot = rng.random() < 0.4
+        if rig.autoboot:
+            ops.append(("device-restarts-at-once",))
         for step in range(desc["length"]):
             r = rng.random()
             mark = len(rig.bus.log)
@@ -317,8 +330,11 @@ def run_waits(ctx, desc):
         cond = waits.SignallingCondition()
         nmt.state_update = cond
         # ---- wait_for_heartbeat returns on the matching message
-        byte = rng.choice([5, 4, 127, 0, 0x85])
-        status, val = waits.run_waiter(lambda: nmt.wait_for_heartbeat(40), cond, lambda: rig.ext.send(0x700 + K, bytes([byte])))
+        byte = [5, 0, 0x85, 0x80, 4, 127][rnd % 6]
+        if rnd % 2:
+            # an application callback that takes its time (the state the waiter is handed must still be the message's)
+            nmt.add_heartbeat_callback(lambda state: time.sleep(0.03))
+        status, val = waits.run_waiter(lambda: nmt.wait_for_heartbeat(40), cond, lambda: rig.ext.send(0x700 + K, bytes([byte])), must_return=True)
         ctx.count("wait_cases")
         ctx.case(("wait-heartbeat", byte))
         code = byte & 0x7F
@@ -328,6 +344,9 @@ def run_waits(ctx, desc):
             ctx.inconc(f"wait_for_heartbeat: {status}", case)
         elif status == "not-woken":
             ctx.violation("waiter-not-woken", "the heartbeat was delivered but the caller waiting in wait_for_heartbeat() was not woken", case)
+        elif status == "re-parked":
+            ctx.violation("wait-for-heartbeat-ignored-the-message", f"heartbeat byte {byte:#04x} was delivered, the waiter looked at it and waited again "
+                          f"(it returned {val!r} only later)", case)
         elif status != "returned" or val != want:
             ctx.violation("wait-for-heartbeat", f"wait_for_heartbeat ended {status} with {val!r}, expected return of {want!r}", case)
         # ---- a heartbeat of another node does not wake it; none arriving -> NmtError
